@@ -174,7 +174,7 @@ func describeTime(s *Scope, obj Time, args List, depth int) Object {
 		}
 	}
 	ansi := s.Get("*print-ansi*") != nil
-	right := int(s.Get("*print-right-margin*").(Fixnum))
+	right := RightMarginValue(s.Get("*print-right-margin*"), DefaultRightMargin)
 
 	b := obj.Describe(nil, 0, right, ansi)
 	if _, err := w.Write(b); err != nil {
